@@ -1,4 +1,4 @@
-"""C26 -- solute-vacancy jump networks classify every transition exactly once (run-time contracts, level B)."""
+"""C26 -- solute-vacancy jump networks classify every transition exactly once (class builder under E1 contract, level P; networks: run-time contracts, level B)."""
 from vf.common import Report, finish, SEED
 from vf.rtc import runner, catalogue
 from contracts import stars_rt as M
@@ -8,6 +8,12 @@ def main(tier):
     rep = Report('C26', tier)
     n = len(catalogue.builders(tier, SEED))
     runner.run(rep, 'StarSet.jumpnetwork_omega::contract', M.w_omega, [(i, tier, SEED) for i in range(n)], 'onsager/crystalStars.py::StarSet.jumpnetwork_omega1')
+    # the class builder under E1 contract (level P): jump first, each (initial, final) pair once, closed under reversal, image under every
+    # operation present, nothing else -- for every group action (the action is an uninterpreted function)
+    from vf.pyvc import driver
+    from contracts import omegajumps_c as OJ
+    driver.verify_function(OJ.SymmEquivJumpList(), rep, tier)
+    for a in OJ.SymmEquivJumpList.ABSTRACTED: rep.assume('StarSet.symmequivjumplist contract, abstracted: ' + a)
     from vf import extract
     for q in ['StarSet.jumpnetwork_omega1', 'StarSet.jumpnetwork_omega2', 'StarSet.symmequivjumplist']:
         try:
